@@ -360,3 +360,6 @@ KNOWN = {"bom-compressed": _known_bom}
 from pv import fluent  # noqa: E402
 SUBS.append(fluent.sub(ID))
 RULE += fluent.RULE
+
+# cases at scale (see pv/scale.py)
+RULE += scale.RULE
